@@ -86,7 +86,8 @@ type Layer interface {
 	Refresh(ctx context.Context, hosts source.RegistryHosts, refspec reference.Spec, desc ocispec.Descriptor) error
 
 	// Verify verifies this layer using the passed TOC Digest.
-	// Nop if Verify() or SkipVerify() was already called.
+	// This can be called multiple times (e.g. for a cached layer). It fails if
+	// the passed TOC Digest doesn't match the TOC of this layer.
 	Verify(tocDigest digest.Digest) (err error)
 
 	// SkipVerify skips verification for this layer.
@@ -471,11 +472,14 @@ func (l *layer) Verify(tocDigest digest.Digest) (err error) {
 	if l.isClosed() {
 		return fmt.Errorf("layer is already closed")
 	}
-	if l.r != nil {
-		return nil
+	// Always check the passed digest even if this (possibly cached) layer has
+	// already been verified or its verification has been skipped.
+	r, err := l.verifiableReader.VerifyTOC(tocDigest)
+	if err != nil {
+		return err
 	}
-	l.r, err = l.verifiableReader.VerifyTOC(tocDigest)
-	return
+	l.r = r
+	return nil
 }
 
 func (l *layer) SkipVerify() {
